@@ -10,7 +10,16 @@ Dynamic part (initial-state lattice, RK4, horizon 0.5 s, h in {4,2,1,.5} ms): dr
 shrink with fitted order >= 3 (on average e(h)/e(h/2) >= 8) over the step sizes where it is above the round-off floor; without gravity the linear and
 angular momentum (numpy, about the world origin) of every free-floating tree drift with order >= 3 as well, and the
 engine's subtree_linvel*mass / subtree_angmom agree with the numpy momenta.
+
+Subtree part (static, every state of the lattice with non-zero velocity): for EVERY body b, the world included,
+subtree_com[b], subtree_linvel[b]*subtreemass[b] and subtree_angmom[b] (about subtree_com[b]) equal the sums over the
+descendants of b recomputed in numpy from body-com Jacobians.  Because the backward accumulation passes of mj_subtreeVel
+only distinguish a body's own mass from its subtree mass, and a leaf child from an inner child, below a nesting depth of
+three, the family is extended for this part alone by the "deep" set: all forests with exactly N+1 bodies x the full joint
+menu product, and all forests with N+2 bodies x a covering joint assignment (body i takes menu entry (k+i) mod |menu|,
+k = 0..|menu|-1); these models are evaluated statically only (no trajectories), which is cheap.
 """
+import itertools
 import json
 import math
 import os
@@ -30,7 +39,9 @@ META = dict(
     text="For every model of the family and every initial state of the lattice the RK4 energy drift over 0.5 s is measured at four "
          "step sizes and must shrink at order >= 3 above a fixed round-off floor; free-floating trees must conserve linear and angular "
          "momentum at the same order without gravity. Kinetic energy, potential energy and the force/potential gradient relation are "
-         "checked against numpy on the full state lattice. A sign or frame error in bias, spring or gravity forces keeps the motion "
+         "checked against numpy on the full state lattice; the subtree quantities of mj_subtreeVel (com, linear velocity, angular momentum) "
+         "of every body including the world are compared with plain sums over descendants, on the family plus a static-only set of deeper "
+         "forests (one and two more bodies) so that inner bodies that are themselves children occur. A sign or frame error in bias, spring or gravity forces keeps the motion "
          "plausible but destroys conservation, for the specific joint type / tree shape where it occurs; the family is enumerated exhaustively.",
     note="Order-of-convergence statements are about four step sizes on a finite family. Momenta use the engine's body Jacobians (C07). "
          "Cases whose drift is below the floor at the coarser step are counted as floor-excluded, not as passes. Tendon dead-bands and the "
@@ -149,6 +160,83 @@ def momenta(lib, m, mi, d):
     return out
 
 
+def _cross(a, b):
+    a = np.asarray(a)
+    b = np.asarray(b)
+    return np.stack([a[..., 1] * b[..., 2] - a[..., 2] * b[..., 1], a[..., 2] * b[..., 0] - a[..., 0] * b[..., 2],
+                     a[..., 0] * b[..., 1] - a[..., 1] * b[..., 0]], axis=-1)
+
+
+def subtree_reference(lib, m, mi, d):
+    """For every body b (0 = world): mass, centre of mass, linear momentum and angular momentum about that centre of mass of
+    the set {b and all its descendants}: plain sums over the member bodies (membership matrix from the parent ids), momenta
+    taken about the world origin and shifted to the subtree's centre of mass once -- no recursion over partial results, so an
+    accumulation error in the engine's backward passes cannot be mirrored here."""
+    nv = mi.nv
+    v = np.array(d.qvel)
+    xipos = np.array(d.xipos).reshape(-1, 3)
+    ximat = np.array(d.ximat).reshape(-1, 3, 3)
+    jp = np.zeros((3, nv))
+    jr = np.zeros((3, nv))
+    mass = [float(x) for x in m.body_mass]
+    pb, lb = [np.zeros(3)], [np.zeros(3)]
+    for b in range(1, mi.nbody):
+        lib.mj_jacBodyCom(m, d, jp, jr, b)
+        Iw = ximat[b] @ np.diag(np.array(m.body_inertia[b], float)) @ ximat[b].T
+        pb.append(mass[b] * (jp @ v))
+        lb.append(Iw @ (jr @ v))
+    # membership matrix S[b, c] = 1 iff c is b or a descendant of b (from parent ids only)
+    S = np.eye(mi.nbody)
+    for c in range(1, mi.nbody):
+        a = mi.body_parentid[c]
+        while True:
+            S[a, c] = 1.0
+            if a == 0:
+                break
+            a = mi.body_parentid[a]
+    mass = np.array(mass)
+    pb = np.array(pb)
+    lb = np.array(lb)
+    ms = S @ mass
+    mx = S @ (mass[:, None] * xipos)
+    P = S @ pb
+    L0 = S @ (lb + _cross(xipos, pb))          # about the world origin
+    out = []
+    for b in range(mi.nbody):
+        if ms[b] <= 0:
+            out.append(None)
+            continue
+        com = mx[b] / ms[b]
+        out.append(dict(mass=float(ms[b]), com=com, P=P[b], L=L0[b] - _cross(com, P[b]), n=int(S[b].sum())))
+    return out
+
+
+def subtree_checks(lib, part, m, d, mi, bad, rp):
+    """engine's subtree quantities of every body (world included) vs the numpy sums; call after mj_forward."""
+    lib.mj_subtreeVel(m, d)
+    ref = subtree_reference(lib, m, mi, d)
+    slv = np.array(d.subtree_linvel).reshape(-1, 3)
+    sam = np.array(d.subtree_angmom).reshape(-1, 3)
+    scom = np.array(d.subtree_com).reshape(-1, 3)
+    stm = np.array(m.body_subtreemass, float)
+    for b, r in enumerate(ref):
+        if r is None:
+            continue
+        part.add("subtree_entries_compared")
+        if b == 0:
+            part.add("subtree_entries_world")
+        elif mi.body_parentid[b] != 0 and r["n"] > 1:
+            part.add("subtree_entries_inner_nonroot")
+        if abs(stm[b] - r["mass"]) > TOL * r["mass"]:
+            bad("body_subtreemass != sum of descendant masses", "body %d: %r vs %r" % (b, float(stm[b]), r["mass"]), rp)
+        if relerr(slv[b] * r["mass"], r["P"], atol=1e-3) > TOL:
+            bad("subtree_linvel*mass != linear momentum", "body %d: %s vs %s" % (b, slv[b] * r["mass"], r["P"]), rp)
+        if relerr(sam[b], r["L"], atol=1e-3) > TOL:
+            bad("subtree_angmom != angular momentum about subtree com", "body %d: %s vs %s" % (b, sam[b], r["L"]), rp)
+        if relerr(scom[b], r["com"], atol=1e-3) > TOL:
+            bad("subtree_com != sum m x / sum m", "body %d: %s vs %s" % (b, scom[b], r["com"]), rp)
+
+
 # ------------------------------------------------------------------ static checks
 
 def static_checks(lib, part, m, d, mi, ident, xml, gravity_on, spring):
@@ -179,20 +267,8 @@ def static_checks(lib, part, m, d, mi, ident, xml, gravity_on, spring):
             if abs(E[0] - V) > TOL * (1e-3 + abs(V)):
                 bad("energy[0] != gravity + spring potential", "%r vs %r" % (float(E[0]), V), rp)
             if vi:
-                # engine's subtree momenta of every tree vs numpy (any root joint type, gravity irrelevant)
-                lib.mj_subtreeVel(m, d)
-                mm = momenta(lib, m, mi, d)
-                slv = np.array(d.subtree_linvel).reshape(-1, 3)
-                sam = np.array(d.subtree_angmom).reshape(-1, 3)
-                scom = np.array(d.subtree_com).reshape(-1, 3)
-                for b, r in mm.items():
-                    com = r["mx"] / r["mass"]
-                    if relerr(slv[b] * r["mass"], r["P"], atol=1e-3) > TOL:
-                        bad("subtree_linvel*mass != linear momentum", "%s vs %s" % (slv[b] * r["mass"], r["P"]), rp)
-                    if relerr(sam[b], r["L"] - np.cross(com, r["P"]), atol=1e-3) > TOL:
-                        bad("subtree_angmom != angular momentum about subtree com", "%s vs %s" % (sam[b], r["L"] - np.cross(com, r["P"])), rp)
-                    if relerr(scom[b], com, atol=1e-3) > TOL:
-                        bad("subtree_com != sum m x / sum m", "%s vs %s" % (scom[b], com), rp)
+                # engine's subtree quantities of EVERY body (world included) vs numpy (any joint type, gravity irrelevant)
+                subtree_checks(lib, part, m, d, mi, bad, rp)
                 continue
             # force == -grad potential (v = 0: qfrc_bias is minus the gravity force)
             frc = np.array(d.qfrc_spring) - np.array(d.qfrc_bias)
@@ -446,10 +522,71 @@ def run_case(lib, part, par, js, spring, gravity_on):
     m.free()
 
 
+def height(par):
+    """number of bodies on the longest root-to-leaf path"""
+    dep = []
+    for p in par:
+        dep.append(1 if p < 0 else dep[p] + 1)
+    return max(dep) if dep else 0
+
+
+def deep_models(n_full, n_cover, menu):
+    """The "deep" set of the subtree part: all forests with exactly n_full bodies x full product of the joint menu, and all
+    forests with exactly n_cover bodies x a covering assignment (body i takes entry (k+i) mod |menu_i|, k = 0..|menu|-1)."""
+    for par in A.forests(n_full):
+        doms = [A.joint_menu(p == -1, menu) for p in par]
+        for js in itertools.product(*doms):
+            if not all(j == "none" for j in js):
+                yield par, js
+    for par in A.forests(n_cover):
+        doms = [A.joint_menu(p == -1, menu) for p in par]
+        seen = set()
+        for k in range(len(menu)):
+            js = tuple(dm[(k + i) % len(dm)] for i, dm in enumerate(doms))
+            if js not in seen and not all(j == "none" for j in js):
+                seen.add(js)
+                yield par, js
+
+
+def run_deep(lib, part, par, js):
+    """static subtree part on one model of the deep set: covering configuration lattice x mixed velocity, no trajectories"""
+    opt = A.option_elem(timestep=HS[0], integrator="RK4", gravity="0 0 0", flags={"energy": "enable"})
+    xml = U.std_tree_xml(par, js, option=opt)
+    m = lib.load_xml(xml)
+    d = lib.make_data(m)
+    mi = U.MInfo(m)
+    ident = "parents=%s joints=%s spring=none gravity=off" % (par, js)
+    v = A.qvel_lattice(mi.nv, units=False)[-1]
+    deep = height(par) >= 3
+
+    def bad(name, msg, rp):
+        part.violation("%s %s" % (name, ident), "%s: %s (%s)" % (name, msg, ident), rp)
+    part.add("deep_models")
+    part.add("deep_models_height_ge3", int(deep))
+    for qi, q in enumerate(A.qpos_lattice(m, limit=12)):
+        d.qpos[:] = q
+        d.qvel[:] = v
+        lib.mj_forward(m, d)
+        part.count(1, key=("subtree", par, js, qi) if deep else None,
+                   sample={"parents": par, "joints": js, "qpos": q, "qvel": v, "part": "subtree"} if qi == 1 and deep else None)
+        part.add("deep_states")
+        subtree_checks(lib, part, m, d, mi, bad, {"xml": xml, "qpos": q, "qvel": v})
+    d.free()
+    m.free()
+
+
 def _chunk(chunk):
     lib = mj.load()
     part = core.Part()
-    for par, js, spring, g in chunk:
+    for it in chunk:
+        if it[0] == "deep":
+            try:
+                run_deep(lib, part, it[1], it[2])
+            except mj.MjError as e:
+                part.violation("engine error parents=%s joints=%s spring=none" % (it[1], it[2]), "unexpected mju_error/compile error: %s" % e,
+                               {"parents": it[1], "joints": it[2], "part": "deep"})
+            continue
+        par, js, spring, g = it
         try:
             run_case(lib, part, par, js, spring, g)
         except mj.MjError as e:
@@ -471,13 +608,21 @@ def run(ctx):
     # canonical (minimal) replays of the known root causes are produced first, in-process
     for it in [((-1,), ("ball",), "all", 0)]:
         ctx.merge(_chunk([it]))
-    core.pmap(ctx, _chunk, items, nchunks=min(len(items), 256))
+    deep = [("deep", par, js) for par, js in deep_models(nmax + 1, nmax + 2, MENU)]
+    core.pmap(ctx, _chunk, items + deep, nchunks=min(len(items) + len(deep), 256))
     ctx.extra["model_variants"] = len(items)
+    ctx.extra["deep_set_models"] = len(deep)
+    ctx.extra["deep_set_models_height_ge3"] = sum(1 for _, par, _ in deep if height(par) >= 3)
     ctx.rule = ("all rooted ordered forests with <=%d bodies x full product of the joint menu %s x spring variant %s x gravity {on,off}; "
                 "static: covering lattice of <=12 configurations x {zero, mixed} velocity (energy[1], energy[0], force = -grad potential by central "
                 "FD eps=%g); dynamic: %d initial states x h in %s over %g s with RK4, fitted order of the drift >= log2(%g) over the step sizes whose drift is > %g*energy scale; "
-                "momentum of free-rooted trees sampled every 0.02 s. non-trivial = a case whose drift is above the floor for at least one pair" % (
-                    nmax, MENU, SPRINGS, FD_EPS, NINIT[0], HS, HORIZON, MIN_RATIO, FLOOR_REL))
+                "momentum of free-rooted trees sampled every 0.02 s. non-trivial = a case whose drift is above the floor for at least one pair. "
+                "subtree part (static): at every lattice state with non-zero velocity subtree_com / subtree_linvel / subtree_angmom / body_subtreemass "
+                "of EVERY body (world included) against plain numpy sums over the body's descendants; for this part the family is extended by the "
+                "deep set = all forests with exactly %d bodies x full menu product + all forests with exactly %d bodies x covering joint assignment "
+                "(body i takes menu entry (k+i) mod |menu|), gravity off, no springs, <=12 configurations x mixed velocity; non-trivial there = "
+                "(model,state) with a forest of height >= 3 (an inner body that is itself a child)" % (
+                    nmax, MENU, SPRINGS, FD_EPS, NINIT[0], HS, HORIZON, MIN_RATIO, FLOOR_REL, nmax + 1, nmax + 2))
     ctx.assumptions = ["momenta are built from mj_jacBodyCom / xipos / ximat (C07)", "floor-excluded pairs are counted in coverage, not treated as passes",
                        "ball-spring cut locus (relative angle within 1e-3 of pi) excluded from the gradient test (boundary_excluded); runs in which a sprung "
                        "ball/free joint comes within 0.3 rad of it are excluded from the order test (boundary_excluded_cutlocus)"]
